@@ -83,4 +83,15 @@ theorem ecs_declined_src : ecs_declined = "ri.ECS != nil && ri.ECS.Subnet.Bits()
 theorem ecs_req_do_src : ecs_req_do = "dnsmsg.IsDO(req)" := by decide
 theorem dnsmsg_servfail_max_src : dnsmsg_servfail_max = "30" := by decide
 
+/-! Round 4: production wiring.  The simple cache can be built by `dnssvc.NewHandlers` only once per
+process (its metrics register globally), so besides the one stack the harness builds from a
+configuration file these facts pin the field mapping. -/
+def wireSimpleExpected : String := "&cache.MiddlewareConfig{ MetricsListener: dnssrvprom.NewCacheMetricsListener(metrics.Namespace()), Count: conf.NoECSCount, MinTTL: conf.MinTTL, OverrideTTL: conf.OverrideCacheTTL, }"
+def wireECSExpected : String := "&ecscache.MiddlewareConfig{ Cloner: c.Cloner, Logger: c.BaseLogger.With(slogutil.KeyPrefix, \"ecscache\"), CacheManager: c.CacheManager, GeoIP: c.GeoIP, NoECSCount: conf.NoECSCount, ECSCount: conf.ECSCount, MinTTL: conf.MinTTL, OverrideTTL: conf.OverrideCacheTTL, }"
+theorem wire_simple_args_src : Gen.C04.wire_simple_args = wireSimpleExpected := by
+  unfold Gen.C04.wire_simple_args wireSimpleExpected; rfl
+theorem wire_ecs_args_src : Gen.C04.wire_ecs_args = wireECSExpected := by
+  unfold Gen.C04.wire_ecs_args wireECSExpected; rfl
+theorem wire_builder_src : Gen.C04.wire_builder_has_toInternal = "1" := by decide
+
 end Agd.Tie.C04
